@@ -50,8 +50,8 @@ RULE = ("histories of def (plain / ^:dynamic / ^:redef / ^:private) / redefiniti
         "colliding name pairs, length 4 over 5 step kinds for a-b/a_b, length <= 3 over 7 namespace step kinds, length 4 over 5, "
         "length <= 3 over 7 privacy step kinds, length <= 2 (+40 of length 3) over 6 step kinds on FILE-BACKED "
         "namespaces written to a scratch directory; random histories of length 5-12 beyond (read after every "
-        "step). Thread bindings (one thread): after (def ^:dynamic *v* ..) every history of length <= 3 (+200 of "
-        "length 4) over {redefinition with ^:dynamic, redefinition without, enter a binding of *v*, leave the "
+        "step). Thread bindings (one thread): after (def ^:dynamic *v* ..), and again after (def ^:dynamic *v* ..) + an "
+        "open binding of *v*, every history of length <= 3 (+80 of length 4) over {redefinition with ^:dynamic, redefinition without, enter a binding of *v*, leave the "
         "innermost binding, alter-var-root}, and 160 random histories of length 7-15 with nested bindings of two "
         "dynamic Vars, attempts to bind a plain and a missing Var, redefinitions (mostly keeping, sometimes "
         "dropping ^:dynamic), root mutations, in-ns / require between two namespaces; every def and every read is "
@@ -336,11 +336,14 @@ def cases(tier, rng):
     # thread bindings: every history of length <= 3 (thorough: 5) after (def ^:dynamic *v* ..), a sample of
     # the next length, each once through the runtime functions and once through real `binding` forms
     kb = 0
-    bseqs = list(sequences(ALPHA_BIND, 3 if quick else 5))
-    bseqs += sampled(sequences(ALPHA_BIND, 4, 4), 200) if quick else sampled(sequences(ALPHA_BIND, 6, 6), 3000)
+    bseqs = [BIND_PREFIX + ops for ops in sequences(ALPHA_BIND, 3 if quick else 5)]
+    # ... the same inside an open binding of *v* ...
+    bseqs += [BIND_PREFIX + [["push", U, DV, 0]] + ops for ops in sequences(ALPHA_BIND, 3 if quick else 4)]
+    bseqs += [BIND_PREFIX + ops for ops in (sampled(sequences(ALPHA_BIND, 4, 4), 80) if quick
+                                            else sampled(sequences(ALPHA_BIND, 6, 6), 3000))]
     for ops in bseqs:
         kb += 1
-        yield with_reads([U], number(BIND_PREFIX + ops), modes(), every=True, bind="form" if kb % 2 else "rt")
+        yield with_reads([U], number(ops), modes(), every=True, bind="form" if kb % 2 else "rt")
     for _ in range(160 if quick else 4000):
         kb += 1
         n = rng.randint(4, 12) if quick or rng.random() < 0.7 else rng.randint(13, 30)
@@ -356,7 +359,7 @@ def cases(tier, rng):
         disk += rng.sample(list(sequences(ALPHA_DISK, 3, 3)), 40)
     for ops in disk:
         yield with_reads([U], ops, modes(), every=True, files=FILES)
-    for _ in range(240 if quick else 6000):
+    for _ in range(200 if quick else 6000):
         n = rng.randint(5, 12) if quick or rng.random() < 0.7 else rng.randint(13, 24)
         yield with_reads(NSS, random_history(rng, n), modes(), wide=rng.random() < 0.2, every=True)
 
